@@ -130,6 +130,27 @@ CHECKS = [
                       'compared modulo the PDB column width, names truncated to the column width.',
         'technique': 'deterministic simulation: simulated CLI runs, cross-artefact agreement of the files on disk checked by independent readers',
     },
+    {
+        'property_id': 'C11',
+        'quick_cmd': './check C11 --tier quick',
+        'thorough_cmd': './check C11 --tier thorough',
+        'evidence_file': 'evidence/C11.json',
+        'replay_cmd_template': './check C11 --replay {path}',
+        'engine': 'vsim',
+        'level_claimed': {
+            'category': 'exploration',
+            'text': 'Groups of simulated martinize2 processes on one derived structure and option set: a baseline and 3-5 '
+                    'presentations (another PYTHONHASHSEED in another interpreter that loaded the library itself; atoms shuffled '
+                    'within residues; hydrogens renamed; cube rotation + lattice translation of the file; arbitrary rotation in '
+                    'memory; combinations), with enumeration order and RNG seed owned by the simulator and held equal inside a '
+                    'group. Outcome class, canonical topology parsed from the written files (every atom and interaction, floats '
+                    'with tolerance) and coordinates (variant == R * baseline + t) must agree.',
+            'design_ref': 'DESIGN.md 4/C11',
+        },
+        'level_note': 'Structures (1-4 chains of 2-12 residues from the shipped test inputs), option sets and hash seeds are sampled. '
+                      'Known finding: charge-dummy particles of the polarisable force fields are placed in a fixed/random frame.',
+        'technique': 'deterministic simulation: groups of simulated CLI processes under simulator-owned hash seed, RNG and input presentation; metamorphic comparison of outputs',
+    },
 ]
 
 MANIFEST = {
